@@ -18,6 +18,7 @@ VPOOL = ["éü\n\t\"q\\ \x01", 3.25, [1, [2, {"z": None}]], {"k": "v", "n": [1, 
 
 
 _REFNODE = []
+SALT = [0]
 
 
 def value_of(tok):
@@ -35,7 +36,7 @@ def value_of(tok):
     if tok == "same":
         return SHARED
     if tok.startswith("v"):
-        return VPOOL[int(tok[1:]) % len(VPOOL)]
+        return VPOOL[(int(tok[1:]) + SALT[0]) % len(VPOOL)]       # the pool rotates with the vector index
     return tok          # "n<i>": the string itself
 
 
@@ -149,6 +150,7 @@ def perform_dict(q, par, ch, idx):
     from anytree.exporter import DictExporter, JsonExporter
     from anytree.importer import DictImporter, JsonImporter
 
+    SALT[0] = idx * 3
     attrs = q["attrs"]
     cands = all_tokens(attrs)
     o = q["o"]
